@@ -325,8 +325,6 @@ class LRI(dict):
                 return True
             if len(other) != len(self):
                 return False
-            if not isinstance(other, LRI):
-                return other == self
             return super().__eq__(other)
 
     def __ne__(self, other):
